@@ -58,6 +58,67 @@ theorem interFold_none {α : Type} [BEq α] [LawfulBEq α] (hss : List (List α)
     rw [m']
     simp only [List.mem_eraseDups, List.mem_cons, forall_eq_or_imp]
 
+theorem nodup_eraseDups_aux {α : Type} [BEq α] [LawfulBEq α] (n : Nat) :
+    ∀ l : List α, l.length ≤ n → l.eraseDups.Nodup := by
+  induction n with
+  | zero =>
+    intro l hl
+    have : l = [] := List.eq_nil_of_length_eq_zero (by omega)
+    subst this; simp
+  | succ n ih =>
+    intro l hl
+    cases l with
+    | nil => simp
+    | cons a as =>
+      rw [List.eraseDups_cons]
+      have hlen : (as.filter fun b => !b == a).length ≤ n := by
+        have := List.length_filter_le (fun b => !b == a) as
+        simp only [List.length_cons] at hl
+        omega
+      refine List.nodup_cons.mpr ⟨?_, ih _ hlen⟩
+      intro hmem
+      rw [List.mem_eraseDups, List.mem_filter] at hmem
+      simp at hmem
+
+theorem nodup_eraseDups {α : Type} [BEq α] [LawfulBEq α] (l : List α) : l.eraseDups.Nodup :=
+  nodup_eraseDups_aux l.length l (Nat.le_refl _)
+
+theorem interStep_nodup {α : Type} [BEq α] [LawfulBEq α] (L hs : List α) (hn : L.Nodup) :
+    ∀ L', interStep (some L) hs = some L' → L'.Nodup := by
+  intro L' h
+  unfold interStep at h
+  by_cases h1 : (some L == some ([] : List α)) = true
+  · rw [if_pos h1] at h; cases h; exact hn
+  · rw [if_neg h1] at h
+    simp only [applyScan] at h
+    split at h
+    · cases h; exact hn
+    · split at h
+      · cases h; simp
+      · cases h; exact hn.filter _
+
+theorem interFold_some_nodup {α : Type} [BEq α] [LawfulBEq α] (hss : List (List α)) (L : List α)
+    (hn : L.Nodup) : ∀ L', interFold (some L) hss = some L' → L'.Nodup := by
+  induction hss generalizing L with
+  | nil => intro L' h; simp [interFold] at h; rw [← h]; exact hn
+  | cons hs rest ih =>
+    intro L' h
+    obtain ⟨L1, e1, _⟩ := interStep_some L hs
+    simp only [interFold, List.foldl_cons, e1] at h
+    exact ih L1 (interStep_nodup L hs hn L1 e1) L' h
+
+theorem interFold_none_nodup {α : Type} [BEq α] [LawfulBEq α] (hss : List (List α)) :
+    ∀ L', interFold none hss = some L' → L'.Nodup := by
+  intro L' h
+  cases hss with
+  | nil => simp [interFold] at h
+  | cons hs rest =>
+    have e1 : interStep (none : Option (List α)) hs = some hs.eraseDups := by
+      have : ((none : Option (List α)) == some []) = false := rfl
+      simp [interStep, applyScan, this]
+    simp only [interFold, List.foldl_cons, e1] at h
+    exact interFold_some_nodup rest _ (nodup_eraseDups hs) L' h
+
 theorem interFold_append {α : Type} [BEq α] [LawfulBEq α] (st : Option (List α)) (a b : List (List α)) :
     interFold (interFold st a) b = interFold st (a ++ b) := by
   simp [interFold, List.foldl_append]
